@@ -901,7 +901,7 @@ def doc_oracle(doc):
 class C05(PropCheck):
     id = 'C05'
     extractors = ()
-    modules = ('WpModel.Props.C05', 'WpModel.Witness.C05')
+    modules = ('WpModel.Props.C05', 'WpModel.Props.C05Pm', 'WpModel.Witness.C05', 'WpModel.Witness.C05Pm')
     trusted_base = (
         'modelled, not verified: collapse_margin, percentage, resolve_percentages, adjust_box_sizing, '
         'handle_min_max_width/height, block_level_width, page_width_or_height are hand transcriptions '
@@ -1184,6 +1184,7 @@ class C05(PropCheck):
     # ---------------------------------------------------------------------------------------------
     def finding_replays(self):
         return {'stored-margin-right': finding_stored_margin_right,
+                'empty-block-negative-margin-height': finding_empty_block_height,
                 'rtl-minmax-shift-accumulates': finding_rtl_accumulates,
                 'rtl-relayout-shift-accumulates': finding_rtl_relayout,
                 'zero-percent-height-auto-cb': finding_zero_percent}
@@ -1304,6 +1305,17 @@ def finding_zero_percent():
     heights = {box.element.get('id'): box.height for box in document.pages[0]._page_box.descendants()
                if box.element is not None and box.element.get('id')}
     return heights.get('c') != heights.get('e')
+
+
+def finding_empty_block_height():
+    """An empty block that collapses through with a negative top margin gets height = -collapse_margin."""
+    from harness import docs
+    docs.quiet()
+    document = docs.render('<style>html,body,p{margin:0}</style><p>a</p><div id="e" style="margin-top:-10px"></div><p>b</p>')
+    for box in document.pages[0]._page_box.descendants():
+        if getattr(box, 'element', None) is not None and box.element.get('id') == 'e':
+            return box.height != 0
+    return False
 
 
 PROP = C05()
